@@ -10,10 +10,10 @@ from ..harness import ElectionProfile, Election, REPO, cpu_budget, BudgetExceede
 ID = 'C20'
 LEVEL = 'exploration'
 RULE_TEXT = ('targets = (profile, rule, options) over all rules and arithmetics (fixed / integer / guarded / rational; precision, guard, display incl. '
-             'display > precision, guard 0, equal precision+guard with different splits). The reference report+dump+json of each target comes from a fresh '
+             'display > precision, guard 0, equal precision+guard with different splits; a quarter of all elections are configured in the ballot file only and built as Election(profile) with no options argument; 8% of targets run at 4400-5200 digits). The reference report+dump+json of each target comes from a fresh '
              'subprocess that does nothing else. In one long-lived process, random histories of 1-12 other elections (constructed, counted and rendered back '
              'to back, biased to the same arithmetic class as the target with different settings) are run, then the target: its renderings must equal the '
-             'reference byte for byte. Also the same ElectionProfile object is counted twice in fresh Election objects. non-trivial = the last election of '
+             'reference byte for byte (a target that ends in an error in the fresh process must end in the same kind of error). Also the same ElectionProfile object is counted twice in fresh Election objects. non-trivial = the last election of '
              'the history used the target\'s arithmetic class with different precision / guard / display; distinct = (target, history) hashes')
 ASSUMPTIONS = ['each election is constructed, counted and reported before the next is constructed (the property\'s own scope)']
 MIN_COUNTERS = {'targets': 16, 'histories_compared': 100, 'same_class_different_settings': 40, 'recounts_compared': 30}
@@ -73,12 +73,27 @@ def arith_class(o):
     return 'fixed' if a == 'integer' else a
 
 
+def file_tokens(opts):
+    return ['%s=%s' % (k, {True: 'true', False: 'false'}.get(v, v) if isinstance(v, bool) else v) for k, v in opts.items()]
+
+
 def render_here(blt, opts, budget, profile=None):
+    "opts None: the options are embedded in the ballot file and the caller passes nothing at all, as Election(profile)"
     with contextlib.redirect_stdout(io.StringIO()), cpu_budget(budget):
         p = profile or ElectionProfile(data=blt)
-        E = Election(p, dict(opts))
+        E = Election(p) if opts is None else Election(p, dict(opts))
         E.count()
         return dict(report=E.report(), dump=E.dump(), json=E.json()), p
+
+
+def outcome_here(blt, opts, budget):
+    "renderings, or the error the election ends in (an election that cannot be counted must fail the same way whatever ran before)"
+    try:
+        return render_here(blt, opts, budget)[0]
+    except BudgetExceeded:
+        raise
+    except Exception as e:      # pylint: disable=broad-except
+        return dict(error='%s: %s' % (type(e).__name__, e))
 
 
 def reference(blt, opts):
@@ -111,17 +126,34 @@ def shard(ctx):
         i += 1
         topts = any_config(rng)
         s = gen.pick(rng, dict(G8=1) if (topts['rule'] in ('meek', 'warren') and rng.random() < 0.15) else dict(G1=3, G3=1, G4=3, G6=1, G10=1), False)
+        huge = rng.random() < 0.08
+        if huge:
+            # far more digits than any integer-to-text conversion limit of the interpreter: whether such a count can be rendered
+            # at all may depend on the interpreter, but not on what ran earlier in the process
+            topts = dict(rule='wigm', arithmetic=rng.choice(['fixed', 'guarded']), precision=rng.randint(4400, 5200))
+            s['lines'] = s['lines'][:6]
+            gen.make_valid(s, rng)
+            ctx.count('targets_with_thousands_of_digits')
         tblt = gen.render(s)
-        ref = reference(tblt, topts)
+        tcall = topts
+        if rng.random() < 0.25:
+            # the whole configuration written in the ballot file, and the election built with no options argument at all
+            tblt = gen.render(dict(s, options=file_tokens(topts)))
+            tcall = None
+            ctx.count('targets_configured_in_the_file_only')
+        ref = reference(tblt, tcall)
         ctx.evaluated()
-        if ref is None or 'error' in ref:
+        if ref is None or ('error' in ref and ref['error'].startswith('subprocess failed')):
             ctx.count('target_not_usable')
             continue
+        if 'error' in ref:
+            ctx.count('targets_that_end_in_an_error')
         n_targets += 1
         ctx.count('targets')
         tcls = arith_class(topts)
         for h in range(6 if ctx.quick else 25):
             hist = []
+            hist_cfg = []
             n = rng.randint(1, 12)
             for k in range(n):
                 o = any_config(rng)
@@ -132,7 +164,11 @@ def shard(ctx):
                         if arith_class(o) == tcls and {x: o.get(x) for x in ('precision', 'guard', 'display')} != {x: topts.get(x) for x in ('precision', 'guard', 'display')}:
                             break
                 hs = gen.pick(rng, dict(G1=2, G3=1, G6=1), False)
-                hist.append((gen.render(hs), o))
+                if rng.random() < 0.25:
+                    hist.append((gen.render(dict(hs, options=file_tokens(o))), None))
+                else:
+                    hist.append((gen.render(hs), o))
+                hist_cfg.append(o)
             try:
                 for hb, ho in hist:
                     try:
@@ -141,51 +177,68 @@ def shard(ctx):
                         raise
                     except Exception:      # pylint: disable=broad-except
                         ctx.count('history_election_raised')
-                got, prof = render_here(tblt, topts, budget * 4)
+                if 'error' in ref:
+                    got = outcome_here(tblt, tcall, budget * 40)
+                    prof = None
+                else:
+                    got, prof = render_here(tblt, tcall, budget * (40 if huge else 4))
             except BudgetExceeded:
                 ctx.count('not_explored:budget')
                 continue
             except Exception as e:      # pylint: disable=broad-except
                 ctx.violation('count-after-history-raises:%s' % type(e).__name__, 'target counts in a fresh process but raised %r after a history of %d elections' % (e, len(hist)),
-                              dict(blt=tblt, options=topts, history=[(b, o) for b, o in hist]))
+                              dict(blt=tblt, options=tcall, history=[(b, o) for b, o in hist]))
                 continue
             ctx.count('histories_compared')
-            last = hist[-1][1]
+            last = hist_cfg[-1]
+            if 'error' in ref:
+                ctx.count('error_outcomes_compared')
+                if got.get('error', '').split(':')[0] != ref['error'].split(':')[0]:
+                    ctx.violation('outcome-depends-on-history', 'in a fresh process %s ends in %r; after a history ending with %s it %s'
+                                  % (configs.describe(topts), ref['error'][:120], configs.describe(last),
+                                     ('ends in %r' % got['error'][:120]) if 'error' in got else 'is counted and rendered'),
+                                  dict(blt=tblt, options=tcall, history=[(b, o) for b, o in hist]))
+                continue
             same = arith_class(last) == tcls and {x: last.get(x) for x in ('precision', 'guard', 'display')} != {x: topts.get(x) for x in ('precision', 'guard', 'display')}
             if same:
                 ctx.count('same_class_different_settings')
-                ctx.mark_nontrivial(gen.canon_hash(s, configs.describe(topts) + repr([o for _, o in hist])))
+                ctx.mark_nontrivial(gen.canon_hash(s, configs.describe(topts) + repr(hist_cfg)))
             d = first_diff(ref, got)
             if d:
                 ctx.violation('record-depends-on-history:%s:%s' % (tcls, d[0]),
                               '%s of %s differs after a history ending with %s: fresh %r, after history %r'
                               % (d[0], configs.describe(topts), configs.describe(last), d[1], d[2]),
-                              dict(blt=tblt, options=topts, history=[(b, o) for b, o in hist]))
+                              dict(blt=tblt, options=tcall, history=[(b, o) for b, o in hist]))
             # recount of the same profile object in a fresh Election
             if h == 0:
                 try:
-                    again, _ = render_here(None, topts, budget * 4, profile=prof)
+                    again, _ = render_here(None, tcall, budget * (40 if huge else 4), profile=prof)
                     ctx.count('recounts_compared')
                     d2 = first_diff(got, again)
                     if d2:
                         ctx.violation('recount-differs:%s:%s' % (tcls, d2[0]), 'recounting the same profile under %s gives a different %s: %r vs %r'
-                                      % (configs.describe(topts), d2[0], d2[1], d2[2]), dict(blt=tblt, options=topts, history=[(tblt, topts)]))
+                                      % (configs.describe(topts), d2[0], d2[1], d2[2]), dict(blt=tblt, options=tcall, history=[(tblt, tcall)]))
                 except BudgetExceeded:
                     ctx.count('not_explored:budget')
-        ctx.sample(dict(target=topts, text=tblt[:300], last_history=[o for _, o in hist][-3:]), keep=2)
+        ctx.sample(dict(target=topts, in_file_only=tcall is None, text=tblt[:300], last_history=hist_cfg[-3:]), keep=2)
 
 
 def replay(case):
     ref = reference(case['blt'], case['options'])
-    if ref is None or 'error' in ref:
+    if ref is None or ('error' in ref and ref['error'].startswith('subprocess failed')):
         return []
     for hb, ho in case.get('history', []):
         try:
             render_here(hb, ho, 60)
         except Exception:      # pylint: disable=broad-except
             pass
+    if 'error' in ref:
+        got = outcome_here(case['blt'], case['options'], 600)
+        if got.get('error', '').split(':')[0] != ref['error'].split(':')[0]:
+            return [('outcome-depends-on-history', '%r vs %r' % (ref['error'][:100], got.get('error', 'counted')[:100]))]
+        return []
     try:
-        got, _ = render_here(case['blt'], case['options'], 120)
+        got, _ = render_here(case['blt'], case['options'], 600)
     except Exception as e:      # pylint: disable=broad-except
         return [('count-after-history-raises:%s' % type(e).__name__, repr(e))]
     d = first_diff(ref, got)
